@@ -73,11 +73,9 @@ def run_incrate(prop, tier, seed, only, attaches, harnesses, functions_encoded, 
     hs = [h for h in harnesses if (not only or re.search(only, h.name))]
     if not hs and not any(re.search(only or "", h.name) for g in groups for h in g.harnesses):
         raise Inconclusive("no harness selected")
-    runner = KaniRunner(sc, sc.repo, jobs=jobs, package_args=package_args)
-    results = runner.run_all(hs)
-    out = Outcome()
-    handle_results(prop, results, runner, sc, sc.repo, lambda h: file_of_mod[h.group_file], out, package_args=package_args)
-    all_scalings = list(sc.scalings)
+    # further harness groups run concurrently with the main one, each in its own scratch copy
+    import threading
+    started = []
     for gi, g in enumerate(groups):
         ghs = [h for h in g.harnesses if (not only or re.search(only, h.name))]
         if not ghs:
@@ -85,8 +83,27 @@ def run_incrate(prop, tier, seed, only, attaches, harnesses, functions_encoded, 
         gsc = Scratch("%s_g%d" % (prop.lower(), gi + 2))
         gfile = _prepare(gsc, g.attaches, g.harnesses, g.scalings, g.shims)
         grunner = KaniRunner(gsc, gsc.repo, jobs=g.jobs, package_args=package_args)
-        gres = grunner.run_all(ghs)
-        handle_results(prop, gres, grunner, gsc, gsc.repo, lambda h: gfile[h.group_file], out, package_args=package_args)
+        box = {}
+
+        def work(grunner=grunner, ghs=ghs, box=box):
+            try:
+                box["res"] = grunner.run_all(ghs)
+            except Exception as e:      # reported below as inconclusive
+                box["err"] = e
+        t = threading.Thread(target=work)
+        t.start()
+        started.append((t, gsc, gfile, grunner, box))
+    runner = KaniRunner(sc, sc.repo, jobs=jobs, package_args=package_args)
+    results = runner.run_all(hs)
+    out = Outcome()
+    handle_results(prop, results, runner, sc, sc.repo, lambda h: file_of_mod[h.group_file], out, package_args=package_args)
+    all_scalings = list(sc.scalings)
+    for t, gsc, gfile, grunner, box in started:
+        t.join()
+        if "err" in box:
+            out.inconclusive.append("harness group failed: %s" % box["err"])
+        else:
+            handle_results(prop, box["res"], grunner, gsc, gsc.repo, lambda h, gfile=gfile: gfile[h.group_file], out, package_args=package_args)
         all_scalings += [x for x in gsc.scalings if x not in all_scalings]
         gsc.cleanup()
     if extra:
